@@ -653,6 +653,13 @@ def pCRLF : P Unit := fun w =>
 
 def maxBuffered : Nat := 4096
 
+/-- decoder.go maxListDepth: `Decoder.List` refuses to open the 1000th nested list (a plain error: the
+    server answers NO) -/
+def maxListDepth : Nat := 1000
+
+/-- search.go maxSearchKeyDepth: NOT / OR are refused at this nesting depth (BAD) -/
+def maxSearchKeyDepth : Nat := 1000
+
 /-- Decoder.ExpectAString: a string item (conn.go checkBufferedLiteral: above 4096 bytes the literal
     is refused — outside the model), else an atom -/
 def pAString : P Str := fun w =>
@@ -1045,8 +1052,9 @@ def searchKeywords : List Str :=
 
 /-- search.go readSearchKeyWithAtom; `rec` reads a nested key (for NOT / OR).  The `default:` of the Go
     switch (a sequence set) comes first here: the key is none of the `case` labels. -/
-def pSearchKeyAtom (rec : Crit → P Crit) (c : Crit) (key : Str) : P Crit := fun w =>
-  if !searchKeywords.contains key then
+def pSearchKeyAtom (rec : Crit → P Crit) (kd : Nat) (c : Crit) (key : Str) : P Crit := fun w =>
+  if (key = str "NOT" || key = str "OR") && kd ≥ maxSearchKeyDepth then .error .bad
+  else if !searchKeywords.contains key then
     match NumSet.parseSet (key.map Char.ofNat) with
     | none => .error .no
     | some s => .ok (c.withFlat fun f => { f with seqSets := f.seqSets ++ [.set s] }, w)
@@ -1118,28 +1126,31 @@ def pSearchKeyAtom (rec : Crit → P Crit) (c : Crit) (key : Str) : P Crit := fu
     .ok (c.withFlat fun f => { f with uidSets := f.uidSets ++ [.searchRes] }, w)
   else .error .unmodelled   -- unreachable: the labels are exhausted
 
-/-- search.go readSearchKey: an atom-led key, or a parenthesised list of keys for the same criteria
-    (`Decoder.ExpectList` around readSearchKey); the fuel bounds the nesting -/
-def pSearchKey : Nat → Crit → P Crit
-  | 0, _, _ => .error .unmodelled
-  | fuel+1, c, w =>
+/-- search.go readSearchKeyDepth: an atom-led key, or a parenthesised list of keys for the same criteria
+    (`Decoder.ExpectList` around readSearchKeyDepth).  `ld` is `dec.listDepth`, `kd` the NOT/OR depth; the
+    fuel only makes the recursion structural (the line length bounds it). -/
+def pSearchKey : Nat → Nat → Nat → Crit → P Crit
+  | 0, _, _, _, _ => .error .unmodelled
+  | fuel+1, ld, kd, c, w =>
     let (t, r) := span isSearchAtomChar w
-    if t ≠ [] then pSearchKeyAtom (pSearchKey fuel) c (upper t) r
+    if t ≠ [] then pSearchKeyAtom (pSearchKey fuel ld (kd + 1)) kd c (upper t) r
     else
       match special 40 w with
       | none => .error .bad
       | some r1 =>
         match special 41 r1 with
         | some r2 => .ok (c, r2)
-        | none => listLoop (pSearchKey fuel) r1.length c r1
+        | none =>
+          if ld + 1 ≥ maxListDepth then .error .no
+          else listLoop (pSearchKey fuel (ld + 1) kd) r1.length c r1
 
 /-- the `for` loop of handleSearch over the top-level keys -/
 def pSearchTop : Nat → Crit → Option Str → P Crit
   | 0, _, _, _ => .error .unmodelled
   | fuel+1, c, pending, w => do
     let (c1, r) ← (match pending with
-      | some a => pSearchKeyAtom (pSearchKey (w.length + 2)) c (upper a) w
-      | none => pSearchKey (w.length + 2) c w)
+      | some a => pSearchKeyAtom (pSearchKey (w.length + 2) 0 1) 0 c (upper a) w
+      | none => pSearchKey (w.length + 2) 0 0 c w)
     let (sp?, r1) := decSP r
     if sp? then pSearchTop fuel c1 none r1 else pure (c1, r1)
 
